@@ -197,6 +197,7 @@ func TestCheck(t *testing.T) {
 		}
 	}
 	runPolicyHistories(run, k)
+	runSched(run, k)
 	var mu sync.Mutex
 	var wg sync.WaitGroup
 	sem := make(chan struct{}, 16)
@@ -242,6 +243,9 @@ func replay(bin string, run *report.Run, k *nativebpf.Kernel) int {
 	if err != nil {
 		fmt.Println("HARNESS-ERROR", err)
 		return 2
+	}
+	if strings.HasPrefix(v.Part, "sched:") {
+		return replaySched(k, v)
 	}
 	if strings.HasPrefix(v.Part, policyPart) {
 		vs, p := policyModel(run, k).Replay(v.Trace)
